@@ -252,6 +252,45 @@ def release_rules(ctx: Ctx, rid: str):
 
 
 
+def positive_length_rule(ctx: Ctx, rid: str):
+    """A task with work never has zero length: the whole seconds by which the precise end (forward) / start (backward) is set off
+    from the beginning of the task's portion of its final slot are at least 1 -- the rounding is `max(1, ...)` or a ceiling, not a
+    plain round() that turns a fraction of a second into 0."""
+    fn = ctx.repo.func("TaskScenario._calculatePreciseEndTimeAndRelease")
+    res = local_resolver(fn.node)
+    used = set()
+    for a in own_nodes(fn):
+        if isinstance(a, ast.Assign) and norm(a.targets[0]) == "precise_end":
+            for c in ast.walk(a.value):
+                if isinstance(c, ast.Call) and norm(c.func).endswith("timedelta"):
+                    for kw in c.keywords:
+                        if kw.arg == "seconds" and isinstance(kw.value, ast.Name):
+                            used.add(kw.value.id)
+    rounded = []
+    for nm in sorted(used):
+        for v in res(ast.Name(id=nm, ctx=ast.Load())):
+            if any(isinstance(c, ast.Call) and norm(c.func).split(".")[-1] in ("round", "ceil", "int", "floor") for c in ast.walk(v)):
+                rounded.append((nm, v))
+    if not rounded:
+        raise AnchorMissing("_calculatePreciseEndTimeAndRelease: rounding of the seconds used in the final slot not found")
+    for nm, v in rounded:
+        def at_least_one(e):
+            if isinstance(e, ast.Call) and norm(e.func) == "max" and any(isinstance(a, ast.Constant) and isinstance(a.value, (int, float)) and a.value >= 1 for a in e.args):
+                return True
+            if isinstance(e, ast.Call) and norm(e.func).split(".")[-1] == "ceil":
+                return True
+            if isinstance(e, ast.IfExp):
+                return at_least_one(e.body) and (at_least_one(e.orelse) or (isinstance(e.orelse, ast.Constant) and e.orelse.value == 0
+                                                                             and any(k in norm(e.test) for k in ("> 0", "!= 0"))))
+            return False
+        ok = at_least_one(v)
+        ctx.ob(rid, f"{fn.qual}: {nm} = {norm(v)[:60]}", (fn, v), ok,
+               "a fraction of a second of work still gives the task a length of one second" if ok else
+               f"{norm(v)[:40]} is 0 for work that takes less than half a second of the final slot: the task is reported with start = end "
+               "although time is booked for it",
+               key=key_of(rid, fn, None, f"rounding of {nm}"))
+
+
 def run_extra(ctx: Ctx):
     # ---------------------------------------------------------------- R06.8 answers never come from state that outlives the question
     from .common import process_state_rule
@@ -443,6 +482,7 @@ def run(ctx: Ctx):
     edge_set_rule(ctx, "R06.9", only={"Project._propagateContainerEndDates"})
     # ---------------------------------------------------------------- R06.10 the dates a task is framed by are read for the scenario
     # being scheduled (= C16 R16.1, restricted to the functions that write reported dates)
+    positive_length_rule(ctx, "R06.11")
     from .c16 import scenario_index_rule
     scenario_index_rule(ctx, "R06.10", only={"Project.scheduleScenario", "TaskScenario.schedule", "TaskScenario.scheduleSlot",
                                              "TaskScenario._calculatePreciseEndTimeAndRelease", "TaskScenario.scheduleContainer"})
